@@ -166,3 +166,37 @@ Definition fo_dest (p : path) : path :=
     if String.eqb d EmptyString then ("/" ++ gen b)%string    (* file in the root directory *)
     else (d ++ "/" ++ gen b)%string
   end.
+
+(* ------------------------------------------------------------------ the instance run by the oracle *)
+
+(** Correspondence with the real fc process (harness/c16_driver.go, oracle request [drive]):
+    the file system is given by three lists of names (regular files, directories, unwritable
+    destinations); every regular file holds the marker content [7]. The translation is abstract:
+    the state is the number of files translated so far (= the index of the argument, since the
+    first failure ends the run); it fails exactly at the indices the harness lists in [bad]
+    (obtained from the in-process compiler), and the output of the file translated at index [st]
+    is [100 + st], so that the final file system tells which argument wrote a destination last. *)
+Fixpoint name_mem (p : path) (l : list path) : bool :=
+  match l with
+  | [] => false
+  | x :: r => String.eqb x p || name_mem p r
+  end.
+
+Definition marker : content := [7].
+
+Definition fs_of_lists (regular dirs unw : list path) : fsys :=
+  {| files := fun p => if name_mem p regular then Some marker else None;
+     is_dir := fun p => name_mem p dirs;
+     unwritable := fun p => name_mem p unw |}.
+
+Definition drive_translate (bad : list nat) (st : nat) (src : content) : option (nat * content) :=
+  if existsb (Nat.eqb st) bad then None else Some (S st, [100 + st]).
+
+Definition drive (bad : list nat) (args : list path) (regular dirs unw : list path) : run_result nat :=
+  fc_main nat (drive_translate bad) fo_is_fo fo_dest args 0 (fs_of_lists regular dirs unw).
+
+(** final content of a path: [None] absent, [Some [7]] the marker, [Some [100+i]] written for argument i *)
+Definition final_content (r : run_result nat) (p : path) : option content :=
+  match r with
+  | Done _ fs | Failed _ _ _ fs => files fs p
+  end.
